@@ -875,10 +875,11 @@ pub fn check_mut(fam: &Fam, c: &MutCase) -> Verdict {
     v
 }
 
-/// What the parent can say about a case whose evaluation killed the child process.
-pub fn describe_target(fam: &Fam, c: &MutCase) -> (&'static str, String) {
-    match build(fam, &c.items).and_then(|st| apply(&st, &c.mu).map(|a| (a.target, format!("{}; mutated stream {:?}", a.desc, a.bytes)))) {
+/// What the parent can say about a case whose evaluation killed the child process:
+/// (field hit, mutation class, description).
+pub fn describe_target(fam: &Fam, c: &MutCase) -> (&'static str, &'static str, String) {
+    match build(fam, &c.items).and_then(|st| apply(&st, &c.mu).map(|a| (a.target, a.class, format!("{}; mutated stream {:?}", a.desc, a.bytes)))) {
         Some(x) => x,
-        None => ("none", "mutation not applicable".into()),
+        None => ("none", "skipped:mutation-not-applicable", "mutation not applicable".into()),
     }
 }
